@@ -137,8 +137,8 @@ impl<'a> G<'a> {
             }
         };
         for _ in 0..n_lines {
-            let mut choice = self.rng.below(17);
-            if !stateful && choice >= 14 {
+            let mut choice = self.rng.below(19);
+            if !stateful && (14..17).contains(&choice) {
                 choice = self.rng.below(14);
             }
             if stateful && choice == 9 {
@@ -279,6 +279,25 @@ impl<'a> G<'a> {
                         let flag = self.rng.pick(&self.flags).clone();
                         body.push(Node::Define(flag));
                         body.push(self.marker());
+                    }
+                }
+                17 => {
+                    // lines that differ only in the letter case of a string (case matters inside strings)
+                    let w = *self.rng.pick(&["ok", "Done", "abc", "x"]);
+                    body.push(Node::Data { label: None, width: 1, ops: vec![DataOp::S(w.to_lowercase())] });
+                    body.push(Node::Data { label: None, width: 1, ops: vec![DataOp::S(w.to_uppercase())] });
+                    if self.rng.chance(1, 2) {
+                        body.push(Node::Data { label: None, width: 1, ops: vec![DataOp::S(w.to_lowercase())] });
+                    }
+                }
+                18 => {
+                    // ... and of a character literal
+                    let a = param(&mut roles, self.rng, Role::RegHigh);
+                    if a != usize::MAX {
+                        let c = *self.rng.pick(&[b'a', b'q', b'z']) as i64;
+                        let mn = *self.rng.pick(&["cpi", "ldi", "subi"]);
+                        body.push(Node::instr(mn, vec![Opnd::Param(a as u8), Opnd::Expr(E::Lit(c, 5))]));
+                        body.push(Node::instr(mn, vec![Opnd::Param(a as u8), Opnd::Expr(E::Lit(c - 32, 5))]));
                     }
                 }
                 11 => {
@@ -545,7 +564,7 @@ pub fn run(ctx: &Ctx) -> i32 {
     });
     fw::finish(
         ctx,
-        "programs with 1-4 macro definitions (0-10 parameters; bodies of ldi/mov/ld/st/ldd/std/out with register, index and displacement parameters, .dw/.db on parameters incl. inside larger expressions, .if on a parameter, nested calls passing parameters on, .dseg/.eseg switches returning to .cseg, emit-once blocks (.ifndef F / #define F / ... / .else) and #define flags set by one macro and tested by another; names in mixed case, .endm/.endmacro) and 1-6 calls in any letter case, before or after the definition, (1 in 3 repeated verbatim, directly or after another call) with registers, all nine index forms, Y/Z displacements and random expressions of every precedence as arguments; 1 in 6 programs calls an undefined macro or omits a used argument (must fail); fixed probes for the argument shapes the statement names; distinct_nontrivial = distinct program texts",
+        "programs with 1-4 macro definitions (0-10 parameters; bodies of ldi/mov/ld/st/ldd/std/out with register, index and displacement parameters, .dw/.db on parameters incl. inside larger expressions, .if on a parameter, nested calls passing parameters on, .dseg/.eseg switches returning to .cseg, lines differing only in the letter case of a string or character literal, emit-once blocks (.ifndef F / #define F / ... / .else) and #define flags set by one macro and tested by another; names in mixed case, .endm/.endmacro) and 1-6 calls in any letter case, before or after the definition, (1 in 3 repeated verbatim, directly or after another call) with registers, all nine index forms, Y/Z displacements and random expressions of every precedence as arguments; 1 in 6 programs calls an undefined macro or omits a used argument (must fail); fixed probes for the argument shapes the statement names; distinct_nontrivial = distinct program texts",
         &[
             "hand expansion is done on the IR (refmodel/layout.rs::expand_macros): an argument is substituted as a value (parenthesised when it lands inside a larger expression)",
             "a parameter used inside a larger expression is only called with atomic, parenthesised or function-call arguments; labels and messages inside bodies are not generated",
